@@ -38,6 +38,42 @@ CLAIMED = {
         L1_NOTE + " A target absent from the same locale's file cannot be referenced (documented) - expected Err.",
         "DESIGN.md §3 C06",
     ),
+    "C07": (
+        "exhaustive enumeration of per-locale key-set patterns x inherits x suppress_key_warnings build on the real loader against an exact-multiset diagnostics model",
+        "Every combination of presence/null/absence/group-value swap over a nested key universe, plural states and six surplus shapes for a non-default locale (thorough: a third locale with every inherits map), with and without namespaces, in the normal and the suppress_key_warnings build: the multiset of MissingKey/SurplusKey/UnusedForm diagnostics, the accessible key set, SubKeyMissmatch errors and every rendered key must be exactly what the statement says.",
+        L1_NOTE,
+        "DESIGN.md §3 C07",
+    ),
+    "C08": (
+        "exhaustive enumeration of per-locale value-kind tuples for one key on the real loader against a union-of-signatures model",
+        "Every 1-, 2- and 3-tuple of value kinds across locales (string, variables with and without formatters, components, three range types, plural, foreign keys renaming or fixing the count, null, number, bool): the observed argument set (with count typing and formatter families) must be the union over locales after substitution, and count-typing conflicts must be the documented errors.",
+        L1_NOTE + " The compile-time half (omitting a member / unknown key does not compile) belongs to the L3 engine.",
+        "DESIGN.md §3 C08",
+    ),
+    "C09": (
+        "exhaustive enumeration of token strings (<= 5/6 tokens), range specs, JSON shapes, foreign-key forms, file contents and nesting depths executed on the real loader under catch_unwind + watchdog + subprocess isolation",
+        "All strings over a 21-token adversarial alphabet up to the bound go through ParsedValue::new and, for shorter ones, through real files and the whole loader; plus all range-count token strings, JSON number classes, small JSON shapes in value position, foreign-key target/argument/position products, whole-file contents, missing project pieces and 1..2000 deep/long constructs in subprocesses: every outcome must be Ok or a non-empty Err - no panic, crash, or hang.",
+        L1_NOTE + " Depth bound 2000 on an 8 MiB stack.",
+        "DESIGN.md §3 C09",
+    ),
+    "C10": (
+        "exhaustive permutation of key order (k<=4/5) over a project corpus, two fresh processes, and three front-end builds of the real loader compared by canonical dump",
+        "For every corpus project every permutation of the keys of its files (reversal/rotation for larger files), nested groups reversed and {count,value} fields flipped must give the identical canonical dump (keys, signatures, effective locales, string tables, diagnostics, rendered text or error); the dump must also be identical in two fresh processes and, reduced to format-independent content, across the JSON, JSON5 and YAML builds.",
+        L1_NOTE + " Numeric literal type may differ between front-ends (stated in the property).",
+        "DESIGN.md §3 C10",
+    ),
+    "C11": (
+        "exhaustive sweep of every Unicode scalar value and nasty two-character strings through the real loader, checking every literal index against the exported table",
+        "Every Unicode scalar as a one-character translation and all pairs over 14 hostile characters, in flat, nested-subkey, namespaced, defaulted and foreign-key-duplicated layouts: each Literal::String(s,i) must satisfy strings[i]==s with i in range, and the string count recorded in every (sub-)locale must equal the table length. The same invariants are checked on every project of every other L1 check.",
+        L1_NOTE + " File written by the build helper / generated-code sizes: see engines vbuild / L2 in the evidence when present.",
+        "DESIGN.md §3 C11",
+    ),
+    "C19": (
+        "exhaustive enumeration of small configurations x directory layouts with unparsable decoys on the real parse_locales_raw",
+        "Every locale list of length 0..3 (duplicates included) or missing x default listed/unlisted/missing x namespace lists x every single-entry inherits table over known and unknown names x locales-dir, surrounding manifest shapes and unknown fields: accepted iff the statement says so, default first, same set, and the tracked files are exactly the expected (namespace, locale) paths while every decoy file is unparsable.",
+        L1_NOTE,
+        "DESIGN.md §3 C19",
+    ),
 }
 
 NOT_YET = "check not built yet in this round (design in DESIGN.md §3); no claim is made"
